@@ -15,6 +15,7 @@ of the functions concerned:
   G4  no sequence is built by repeating a reference to one mutable container (`([],) * n`): none on the reference tree.
   G5  a lambda created in a `for` loop that reads the loop variable is consumed within the iteration (map / tree_map / sorted / ...);
       handed to anything that stores it, all such lambdas see the last value (late binding). One reviewed site on the reference tree.
+  G6  `d.setdefault(k, [v])` as a bare statement in a loop (the element is recorded only for the first k). None on the reference tree.
 
 Nothing is reported for functions that do not exist on the reference tree (G1) or for code the rule
 cannot resolve (G3: unresolved callee, star arguments).
@@ -340,6 +341,24 @@ def g5_late_binding(R, repo, rels):
     R.ok(key_of(rel, 'no loop-variable capture by a stored lambda'), m)
 
 
+def g6_setdefault_statement(R, repo, rels):
+  """`d.setdefault(k, [v])` as a statement records v only for the first k: every later (k, v) is dropped (the idiom is
+  `d.setdefault(k, []).append(v)`)."""
+  for rel in rels:
+    if rel not in repo._paths:
+      continue
+    m = repo.mod(rel)
+    for q, f in sorted(m.funcs.items()):
+      for x in astu.body_walk(f.node):
+        if isinstance(x, ast.Expr) and isinstance(x.value, ast.Call) and isinstance(x.value.func, ast.Attribute) and x.value.func.attr == 'setdefault' and len(x.value.args) == 2:
+          d = x.value.args[1]
+          if isinstance(d, (ast.List, ast.Set, ast.Tuple)) and d.elts or isinstance(d, ast.Dict) and d.keys:
+            inloop = any(isinstance(a, (ast.For, ast.While)) for a in astu.ancestors(x))
+            if inloop:
+              R.fail(key_of(f, 'setdefault result used'), (f, x), '`%s` inside a loop stores `%s` only the first time the key is seen and silently drops it for every later occurrence (the result of setdefault is not used to add the new element)' % (astu.short(x), astu.short(d)))
+    R.ok(key_of(rel, 'no element dropped by a bare setdefault(k, [v])'), m)
+
+
 def run(R, repo, prop):
   rels = rule_files(prop)
   R.require(bool(rels), 'no anchor files for %s' % prop)
@@ -350,6 +369,7 @@ def run(R, repo, prop):
   g3_transposed_arguments(R, repo, rels)
   g4_repeated_mutable(R, repo, rels)
   g5_late_binding(R, repo, rels)
+  g6_setdefault_statement(R, repo, rels)
 
 
 def ensure(prop, registry, RuleSpec):
@@ -361,4 +381,4 @@ def ensure(prop, registry, RuleSpec):
 
   def fn(R, repo, _prop=prop):
     run(R, repo, _prop)
-  specs.append(RuleSpec(rid, 'K6+K12', 5 * n, 'bug patterns over the anchored files: options accepted but ignored, optional values tested by truthiness, same-named arguments transposed', fn))
+  specs.append(RuleSpec(rid, 'K6+K12', 6 * n, 'bug patterns over the anchored files: options accepted but ignored, optional values tested by truthiness, same-named arguments transposed', fn))
